@@ -28,14 +28,10 @@ echo "confirm: demo without=$W with=$X baseline_nonok_lines=$base"
 # (same content as /repo with the patch applied; /repo itself stays untouched, so several
 # seeds can be confirmed at the same time)
 SV=$(mktemp -d /tmp/seedverif.XXXX); cp /verif/known_findings.json /verif/anchors.json /verif/fields.json $SV/
-det=""
-for p in $(bin/ndndcheck -list); do
-  out=$(bin/ndndcheck -prop $p -tier quick -repo $WT -verif $SV 2>&1)
-  if echo "$out" | grep -q "^VIOLATION property"; then
-    det="$det $p"
-    echo "$out" | grep -E "^(VIOLATION|UNDECIDED):" | cut -c1-260 | head -4
-  fi
-done
+out=$(GOGC=off GOMEMLIMIT=4GiB bin/ndndcheck -sweep all -repo $WT -verif $SV 2>&1 | grep -E "^(VIOLATION|UNDECIDED): ")
+echo "$out" | cut -c1-260 | head -12
+det=$(echo "$out" | sed -nE 's/^(VIOLATION|UNDECIDED): (C[0-9]+|ALL) .*/\2/p' | sort -u | tr '\n' ' ')
+[ -n "$det" ] && det=" $det"
 rm -rf $SV
 git -C /repo worktree remove --force $WT
 echo "detected_by:${det:- NONE}"
